@@ -121,10 +121,14 @@ for n in X_H:
 FRONT_ASSUME = ["protocol parsing (protobuf / gin binding / encoding-json) is outside: the handler receives an arbitrary value of the request struct type, every optional sub-message nil or present",
     "the kernel double runs the real request coroutine under havoc semantics at the point where System.AddOnRequest would (the goroutine hand-over is not modelled)",
     "jwt: Decode of a client token forks {error, validly signed token with arbitrary claims} because the signing key is a constant in the source"]
-reg["C12"] = {"level": "model_checking", "explanation": "per-path callback/return counting by bounded symbolic execution: the kernel API answers a refused submission exactly once and stores an accepted one (symbolic occupancy and shutdown flag); each of the 18 request coroutines returns exactly one of (response, *t_api.Error) on every path under store/router/sender failures (budget 2) from an arbitrary invariant-satisfying database and never panics; every gRPC call issues at most one kernel request and produces exactly one reply or error",
-    "assumptions": ASSUME_CO + FRONT_ASSUME,
-    "outside": ["everything the statement says about concurrent client goroutines, Signal goroutines, the race between Shutdown and EnqueueSQE and shutdown ordering: goroutine/channel interleavings are not encoded by this engine (seeded changes C12-A and C12-B live there and are not detectable by this check)", "System.Tick / AddOnRequest wrapper with the real gocoro scheduler"],
-    "harnesses": [{"name": "VH_C12_EnqueueSQE", "pkg": "internal/api", "labels": ["C12:"], "reach": ["accepted", "queue-full", "shutting-down"]}]
+reg["C12"] = {"level": "model_checking", "explanation": "per-path callback/return counting by bounded symbolic execution: the kernel API answers a refused submission exactly once and stores an accepted one (symbolic occupancy and shutdown flag); each of the 18 request coroutines returns exactly one of (response, *t_api.Error) on every path under store/router/sender failures (budget 2) from an arbitrary invariant-satisfying database and never panics; every gRPC call issues at most one kernel request and produces exactly one reply or error; the real AIO answers a submission its subsystem refuses exactly once with a queue-full error without blocking the kernel goroutine (symbolic completion-queue occupancy); a sequential skeleton of System.Loop/Tick/Shutdown/Done with the real api queue shows that every request accepted before Shutdown is answered exactly once before Loop returns, for every batch size and whatever the api signal goroutine buffered between ticks",
+    "assumptions": ASSUME_CO + FRONT_ASSUME + ["loop skeleton: one kernel goroutine; api.Signal's goroutine is replaced by its sequential contract (it may or may not have moved one request from sq to the one-slot buffer before the loop continues); gocoro.Add runs the added coroutine to completion at once or refuses (choice); the goroutine in coroutineMetrics is ignored; time.After never fires; aio and scheduler are doubles",
+        "AIO harness: while the kernel goroutine is inside EnqueueSQE nobody drains the completion queue, so a send that would block is reported as a violation"],
+    "outside": ["truly concurrent client goroutines racing Shutdown with EnqueueSQE (the unsynchronised done flag), and any interleaving of the Signal goroutines other than the sequential contract above: goroutine schedules are not encoded by this engine", "the real gocoro scheduler (coroutines suspended across ticks while the loop shuts down)"],
+    "harnesses": [{"name": "VH_C12_EnqueueSQE", "pkg": "internal/api", "labels": ["C12:"], "reach": ["accepted", "queue-full", "shutting-down"]},
+                  {"name": "VH_C12_AioRefused", "pkg": "internal/aio", "labels": ["C12:", "blocked"], "reach": ["accepted", "refused"]},
+                  {"name": "VH_C12_AioDrain", "pkg": "internal/aio", "labels": ["C12:", "blocked"]},
+                  {"name": "VH_C12_Loop", "pkg": "internal/kernel/system", "labels": ["C12:", "blocked"], "reach": ["answered", "scheduler-refused"]}]
                  + co(["VH_X_" + n for n in X_H], ["C12:"], opts=XOPT_Q, optsT=XOPT, reach=REACH_P)
                  + grpc(["C12:", "C15:exactly"], ["ReleaseLock", "ClaimTask", "CreateCallback", "CreatePromiseAndTask"])}
 reg["C13"] = {"level": "other", "explanation": "panic-reachability queries decided by SMT: every gRPC handler runs end to end on a fully symbolic request (real handler -> real api.Process -> real request coroutine under havoc semantics and store faults -> real reply); the decoders of stored client data (router tag source, sender receiver resolution) run on arbitrary stored bytes; every background coroutine runs from an arbitrary invariant-satisfying database. Any reachable Go panic / failed util.Assert / nil dereference / index error on any path is a violation; requests refused by the front end must not have reached the kernel",
@@ -181,7 +185,7 @@ reg["C18"] = {"level": "model_checking",
 reg["C20"] = {"level": "model_checking",
     "explanation": "verbatim storage is decided as equalities over arbitrary strings/bytes/maps/64-bit integers: every create/update handler of both backends writes exactly the supplied arguments (C16 harnesses), every read returns the row's content (record -> object conversion, body-is-row obligations), ids are matched with '=' on the unmodified argument (conditional-write guards), derived ids embed the client id unaltered (task id of a routed promise, callback/subscription ids, scheduled promise id = expand(template, id, occurrence)), gRPC handlers copy request fields unmodified",
     "assumptions": ASSUME_CO + FRONT_ASSUME + ["nil and empty maps / byte strings are the same datum"],
-    "outside": ["wire encodings: base64 in JSON, gin path handling (seeded change C20-A lives there), protobuf", "HTML escaping inside html/template", "restart"],
+    "outside": ["wire encodings: base64 in JSON and protobuf marshalling; gin's request matching itself (only its configuration and the registered route patterns are checked, on the real gin source)", "HTML escaping inside html/template", "restart"],
     "harnesses": store(["VH_C16_CreatePromise", "VH_C16_UpdatePromise", "VH_C16_CreateCallback", "VH_C16_CreateTask", "VH_C16_CreateTasks", "VH_C16_CreateSchedule", "VH_C16_AcquireLock"], [])
                  + co(["VH_P_Read", "VH_P_Create", "VH_P_Complete"], ["C01:body", "C20:"], reach=REACH_P) + co(CB_H, ["C05:registration-stored", "C05:registration-returned"], opts=CBOPT, reach=REACH_P)
                  + co(["VH_S_Fire"], ["C10:promise-as-configured", "C10:promise-created"], opts=SCHEDOPT, optsT=SCHEDOPT_T, reach=REACH_P)
@@ -204,9 +208,12 @@ def http(labels):
     out += [{"name": "VH_H_" + n, "pkg": HTTP, "labels": labels, "tier": "thorough", "opts": {"slots.callbacks": 0, "slots.locks": 0, "slots.schedules": 1, "slots.promises": 1, "slots.tasks": 0, "faults": 0},
              "reach": ["reply", "refused-by-front-end"]} for n in ["SearchPromises", "SearchSchedules"]]
     return out
-reg["C13"]["harnesses"] += http(["C13:"])
+ROUTES = {"name": "VH_H_Routes", "pkg": HTTP, "labels": ["C20:", "C13:"]}
+reg["C13"]["harnesses"] += http(["C13:"]) + [ROUTES]
+reg["C20"]["harnesses"] += [dict(h, labels=["C20:"]) for h in http(["C20:"]) if h["name"] in ("VH_H_ReadPromise", "VH_H_CreatePromise", "VH_H_CompletePromise", "VH_H_CreateCallback", "VH_H_CreateSubscription", "VH_H_ReadSchedule", "VH_H_CreateSchedule", "VH_H_DeleteSchedule", "VH_H_ClaimTask", "VH_H_CompleteTask", "VH_H_AcquireLock") and h.get("tier") != "thorough"] + [ROUTES]
+reg["C20"]["explanation"] += "; the HTTP handlers run end to end on requests from the gin binding contract stub and every field that reaches the kernel equals what the client sent (path ids through extractId), the reply object is the kernel's; http.New is executed with gin v1.10 loaded from source: ids travel in catch-all parameters and the engine is not configured to decode path parameters with query semantics"
 reg["C15"]["harnesses"] += http(["C15:", "C12:"])
 for k in ("C13", "C15"):
     reg[k]["outside"] = [o for o in reg[k]["outside"] if not o.startswith("the HTTP front end")]
-    reg[k]["outside"].append("gin's router, JSON/header decoding and validator are replaced by a contract stub: ShouldBind* either fails or yields ANY value satisfying the struct's binding tags (enums with their own UnmarshalJSON take their declared constants), Param returns an arbitrary string (catch-all parameters with gin's leading '/'); seeded change C20-A (UseRawPath) lives inside gin's router and is not detectable")
+    reg[k]["outside"].append("gin's router, JSON/header decoding and validator are replaced by a contract stub: ShouldBind* either fails or yields ANY value satisfying the struct's binding tags (enums with their own UnmarshalJSON take their declared constants), Param returns an arbitrary string (catch-all parameters with gin's leading '/'); the preconditions of that contract (catch-all routes for ids, no query-style unescaping) are checked by VH_H_Routes on the real gin source")
     reg[k]["explanation"] += "; the 17 HTTP handlers are executed the same way (real handler, real api.Process, real coroutine) on requests produced by the binding contract stub"
